@@ -311,6 +311,13 @@ impl Formatter {
         if !matches!(self.mode, Mode::Emit) {
             return;
         }
+        // A trailing separator replaced by a synthetic `if_break(",")` never goes
+        // through `push_token`; keep the source-line bookkeeping in step with it
+        // anyway, or a closing delimiter on the following line looks as if it came
+        // after a blank line (and the formatter inserts one on the second run).
+        if x.token.line > self.line {
+            self.line = x.token.line;
+        }
         if x.comments.is_empty() {
             return;
         }
